@@ -43,7 +43,7 @@ ACTIONS = ['Resolve', 'BeginCase', 'AccessCase', 'ConfPhase', 'ParseAct', 'Valid
            'Finish']
 ALL_MUTS = ['none', 'envAll', 'envAct', 'envNon', 'unset', 'unsetAct', 'expand', 'expandAct', 'cdTmp', 'cdUp', 'cdSub',
             'timeout', 'def', 'refX', 'files', 'stdin', 'statusFail', 'statusSkip', 'actorNull', 'obsT', 'syntaxErr',
-            'envBA', 'envCleanup', 'defLate', 'cdLate', 'timeoutLate']
+            'envBA', 'envCleanup', 'defLate', 'cdLate', 'timeoutLate', 'homeConf']
 CORE_MUTS = ['envAll', 'expand', 'cdTmp', 'def', 'files', 'statusFail']
 ENDS = ['pass', 'fail', 'hard', 'acthard', 'cleanuphard']
 QUICK_ENDS = ['pass', 'fail', 'hard']
@@ -219,6 +219,8 @@ def render(i, own, ph):
         return ['status = ' + a]
     if op == 'actor':
         return ['actor = ' + {'command': 'command', 'source': 'source % sh', 'null': 'null'}[a]]
+    if op == 'home':
+        return ['home = althome']
     if op == 'probe':
         return ['% sh @HOME@/probe.sh ' + tagstring(i, own, ph, 'probe') + ' @[EXACTLY_ACT]@ @[EXACTLY_TMP]@']
     if op == 'actbad':
@@ -276,11 +278,17 @@ def render(i, own, ph):
     raise ValueError(op)
 
 
-def doc_text(doc, own):
+def doc_text(doc, own, home_dependent=False):
+    """home_dependent: the case begins with an instruction that needs a file of its (default) home directory -
+    unless it sets a home directory of its own"""
+    sets_home = any(i['op'] == 'home' for i in doc['conf'])
     t = ''
     for ph in PHASES:
-        if doc[ph]:
-            t += '[%s]\n' % ph + ''.join(l + '\n' for i in doc[ph] for l in render(i, own, ph))
+        lines = [l for i in doc[ph] for l in render(i, own, ph)]
+        if ph == 'setup' and home_dependent and not sets_home and any(doc[q] for q in PHASES if q != 'conf'):
+            lines = ['run -rel-home here.sh'] + lines
+        if lines:
+            t += '[%s]\n' % ph + ''.join(l + '\n' for l in lines)
     return t
 
 
@@ -315,7 +323,11 @@ def concretize(r):
     cpath = {}
     for n, c in enumerate(r['tree']['cases'], 1):
         cpath[n] = ('sub/' if c['home'] == 1 else '') + 'c%d.case' % n
-        files[cpath[n]] = doc_text(c['doc'], n)
+        files[cpath[n]] = doc_text(c['doc'], n, home_dependent=(r['fam'] == 'hist'))
+        if r['fam'] == 'hist':
+            d = os.path.dirname(cpath[n])
+            files[os.path.join(d, 'here.sh')] = '#!/bin/sh\nexit 0\n'
+            files[os.path.join(d, 'althome', 'placeholder.txt')] = 'x\n' 
     if way == 'suite':
         argv = ['suite', sname[0]]
     else:
@@ -349,7 +361,8 @@ def exec_run(task, cd):
     def fill(t):
         return t.replace('@HOME@', cd.home).replace('@LOG@', log)
     cd.write({p: fill(t) for p, t in HELPERS.items()}, mode={'actprobe': 0o755})
-    cd.write({p: fill(t) for p, t in task['files'].items()})
+    cd.write({p: fill(t) for p, t in task['files'].items()},
+             mode={p: 0o755 for p in task['files'] if p.endswith('here.sh')})
     # the environment the program is started in: B is set, the other names the cases use are not
     for n in ('A', 'K_E', 'K_V', 'X'):
         os.environ.pop(n, None)
@@ -374,7 +387,8 @@ def exec_subprocess(task, cd):
     def fill(t):
         return t.replace('@HOME@', cd.home).replace('@LOG@', log)
     cd.write({p: fill(t) for p, t in HELPERS.items()}, mode={'actprobe': 0o755})
-    cd.write({p: fill(t) for p, t in task['files'].items()})
+    cd.write({p: fill(t) for p, t in task['files'].items()},
+             mode={p: 0o755 for p in task['files'] if p.endswith('here.sh')})
     env = dict(os.environ, PYTHONPATH=os.path.join(runner.REPO, 'src'), TMPDIR=tmp, PYTHONWARNINGS='ignore', B='b0')
     for n in ('A', 'K_E', 'K_V', 'X', 'EXACTLY_VERIF_TRACE'):
         env.pop(n, None)
